@@ -9,12 +9,16 @@ package main
 // never a payload that belongs to another key.
 
 import (
+	"bytes"
 	"context"
 	"encoding/json"
 	"fmt"
 	"math/rand"
 	"os"
 	"path/filepath"
+	"runtime"
+	"sync"
+	"sync/atomic"
 	"testing"
 
 	"github.com/gagliardetto/solana-go"
@@ -58,7 +62,7 @@ func c03JSONResult(resp []byte) (hasResult bool, isNullOrEmpty bool, errObj any)
 func TestVerifC03(t *testing.T) {
 	rec := ev.New("C03", "absent-keys")
 	defer rec.Flush()
-	rec.Rule("absent keys whose truncated in-bucket hash collides with a stored key (found with the index's own lookup) requested through JSON-RPC/gRPC getBlock, getTransaction (1 and 3 epochs loaded), getSignaturesForAddress, GetNodeByCid; plus slots of epochs that are not loaded; distinct = distinct colliding absent keys per (index, surface)")
+	rec.Rule("absent keys whose truncated in-bucket hash collides with a stored key (found with the index's own lookup) requested through JSON-RPC/gRPC getBlock, getTransaction (1 and 3 epochs loaded; also against an epoch whose transaction payloads are all split into several frames), getSignaturesForAddress, GetNodeByCid; plus slots of epochs that are not loaded; plus 16 goroutines issuing present/absent-key requests with their own ids at once (each must get its own answer); distinct = distinct colliding absent keys per (index, surface)")
 	seed := ev.Seed()
 	rng := rand.New(rand.NewSource(seed ^ 0xC03))
 	root := filepath.Join(ev.Scratch(), "c03")
@@ -206,6 +210,56 @@ func TestVerifC03(t *testing.T) {
 		}
 	}
 
+	// ---------------- (2b) the same against an epoch whose transactions are all stored in several frames
+	// (transaction payload split as well): the victim of a collision is then a multi-frame transaction
+	{
+		so := cargen.Opts{Epoch: 7, Seed: seed + 7, NSlots: ev.Pick(900, 6000), SkipOneIn: 3, MaxEntries: 2, MaxTx: 3, MultiFrameOneIn: 1, SplitTxData: true, VoteOneIn: 4, FailOneIn: 5, V0OneIn: 4}
+		sfx, ierr, err := vfMakeEpoch(filepath.Join(root, "e7"), so, false)
+		if err != nil || ierr != "" {
+			rec.Inconclusive(fmt.Sprintf("split-frame fixture: %v %s", err, ierr))
+		} else {
+			multiS, epsS, hS := load(sfx)
+			nMulti := 0
+			for _, tx := range sfx.Model.AllTxs() {
+				if tx.NFramesD > 1 {
+					nMulti++
+				}
+			}
+			rec.Count("split_fixture_transactions_with_multi_frame_data", nMulti)
+			var ss []solana.Signature
+			st := 0
+			for len(ss) < ev.Pick(12, 120) && st < maxTries {
+				var sig solana.Signature
+				rng.Read(sig[:])
+				st++
+				if _, ok := sfx.Model.BySig[sig]; ok {
+					continue
+				}
+				if _, err := epsS[0].sigToCidIndex.Get(sig); err == nil {
+					ss = append(ss, sig)
+				}
+			}
+			rec.Eval(st)
+			rec.Count("absent_sigs_colliding_with_multi_frame_transactions", len(ss))
+			for _, sig := range ss {
+				w := c03Witness{Seed: seed, Fixture: "split-frames", Sig: sig.String(), Loaded: 1}
+				rec.Eval(2)
+				_, resp := vfCall(hS, fmt.Sprintf(`{"jsonrpc":"2.0","id":1,"method":"getTransaction","params":["%s",{"encoding":"base64"}]}`, sig))
+				has, empty, _ := c03JSONResult(resp)
+				if has && !empty {
+					w.Surface = "jsonrpc/getTransaction"
+					rec.Violation("jsonrpc/getTransaction/absent-signature-answered-with-a-transaction", fmt.Sprintf("signature %s is not archived (epoch of multi-frame transactions) but getTransaction returned: %.160s", sig, resp), w)
+				}
+				tx, err := multiS.GetTransaction(ctx, &old_faithful_grpc.TransactionRequest{Signature: sig[:]})
+				if err == nil && tx != nil {
+					w.Surface = "grpc/GetTransaction"
+					rec.Violation("grpc/GetTransaction/absent-signature-answered-with-a-transaction", fmt.Sprintf("signature %s is not archived (epoch of multi-frame transactions) but GetTransaction returned a transaction of slot %d", sig, tx.Slot), w)
+				}
+				rec.Distinct(fmt.Sprintf("sig-to-cid/split-frames/%s", sig))
+			}
+		}
+	}
+
 	// ---------------- (3) absent addresses colliding in the gsfa pubkey index
 	known := map[solana.PublicKey]bool{}
 	for _, tx := range m.AllTxs() {
@@ -317,6 +371,88 @@ func TestVerifC03(t *testing.T) {
 				rec.Violation("grpc/GetBlock/unloaded-epoch-answered-with-a-block", fmt.Sprintf("epoch %d is not loaded but GetBlock(%d) returned a block", e, s), w)
 			}
 			rec.Distinct(fmt.Sprintf("unloaded/%d", s))
+		}
+	}
+	// ---------------- (6) requests in flight together: no request is answered with the answer to another one.
+	// Every request carries its own id; the body is read after the handler has returned and the goroutine has
+	// yielded once (a real server writes the response to the socket at that point, not inside the handler).
+	{
+		type creq struct {
+			body string
+			want []byte
+		}
+		var reqs []creq
+		id := 1000
+		mk := func(method, params string) {
+			id++
+			reqs = append(reqs, creq{body: fmt.Sprintf(`{"jsonrpc":"2.0","id":%d,"method":"%s","params":[%s]}`, id, method, params)})
+		}
+		for i := 0; i < 40; i++ {
+			b := m.Blocks[rng.Intn(len(m.Blocks))]
+			mk("getBlock", fmt.Sprintf(`%d,{"encoding":"base64","transactionDetails":"signatures"}`, b.Slot))
+			mk("getBlockTime", fmt.Sprint(b.Slot))
+			if len(b.Txs) > 0 {
+				mk("getTransaction", fmt.Sprintf(`"%s",{"encoding":"base64"}`, b.Txs[rng.Intn(len(b.Txs))].Sig))
+			}
+		}
+		for s := base; s < base+uint64(main.NSlots) && len(reqs) < 200; s++ {
+			if _, ok := m.BySlot[s]; !ok {
+				mk("getBlock", fmt.Sprint(s)) // skipped slot
+			}
+		}
+		for _, sig := range csigs {
+			mk("getTransaction", fmt.Sprintf(`"%s",{"encoding":"base64"}`, sig))
+		}
+		call := func(body string) []byte {
+			var fctx fasthttp.RequestCtx
+			var req fasthttp.Request
+			req.Header.SetMethod("POST")
+			req.SetRequestURI("/")
+			req.Header.SetContentType("application/json")
+			req.SetBody([]byte(body))
+			fctx.Init(&req, nil, nil)
+			h1(&fctx)
+			runtime.Gosched()
+			return append([]byte(nil), fctx.Response.Body()...)
+		}
+		stable := 0
+		for i := range reqs {
+			a, b := call(reqs[i].body), call(reqs[i].body)
+			if bytes.Equal(a, b) {
+				reqs[i].want = a
+				stable++
+			}
+		}
+		rounds := ev.Pick(150, 2500)
+		var bad atomic.Int64
+		var firstBad atomic.Value
+		var cwg sync.WaitGroup
+		for g := 0; g < 16; g++ {
+			cwg.Add(1)
+			go func(g int) {
+				defer cwg.Done()
+				lr := rand.New(rand.NewSource(seed*53 + int64(g)))
+				for k := 0; k < rounds; k++ {
+					r := &reqs[lr.Intn(len(reqs))]
+					if r.want == nil {
+						continue
+					}
+					got := call(r.body)
+					if !bytes.Equal(got, r.want) {
+						if bad.Add(1) == 1 {
+							firstBad.Store(fmt.Sprintf("request %.120s answered %.200q; alone it is answered %.200q", r.body, got, r.want))
+						}
+					}
+				}
+			}(g)
+		}
+		cwg.Wait()
+		rec.Eval(16 * rounds)
+		rec.Count("concurrent_requests", 16*rounds)
+		rec.Count("concurrent_request_kinds", stable)
+		rec.Distinct("concurrent/16-goroutines")
+		if n := bad.Load(); n > 0 {
+			rec.Violation("jsonrpc/answer-of-another-request-under-concurrency", fmt.Sprintf("%d of %d requests issued from 16 goroutines were not answered with their own answer; first: %v", n, 16*rounds, firstBad.Load()), c03Witness{Seed: seed, Fixture: "main", Surface: "jsonrpc/concurrent", Loaded: 1})
 		}
 	}
 	rec.Sample(map[string]any{"blocks": len(m.Blocks), "txs": len(m.BySig), "addresses": len(known), "colliding_slots": colliding, "colliding_sigs": len(csigs), "colliding_addresses": len(caddrs), "colliding_cids": nc})
